@@ -231,6 +231,14 @@ func runChild(res *hlib.Result, args []string, out string, timeout time.Duration
 // maxCrashes bounds the restarts of one supervised share.
 const maxCrashes = 12
 
+// maxFailsPerChild: a child stops its share after that many failures, and no further
+// share is started once maxFailsTotal failures were reported (every failure may cost a
+// wall-clock bound; the verdict does not get clearer).
+const (
+	maxFailsPerChild = 8
+	maxFailsTotal    = 24
+)
+
 type limitedWriter struct {
 	buf *bytes.Buffer
 	max int
